@@ -124,6 +124,11 @@ func AcquireBodyStream(b *bytebufferpool.ByteBuffer, r network.Reader, t *protoc
 	rs := bodyStreamPool.Get().(*bodyStream)
 	rs.prefetched = append(rs.prefetched[:0], b.B...)
 	rs.prefetchedBytes = bytes.NewReader(rs.prefetched)
+	// ... and they are the stream's alone: left in the body buffer they would be
+	// handed out as "the body" by Body() once the stream has been read and detached
+	// (the first 8 KiB of a longer body, or bytes from behind a body that is over
+	// the limit)
+	b.Reset()
 	rs.reader = r
 	rs.contentLength = contentLength
 	rs.trailer = t
